@@ -15,6 +15,13 @@ CHECKS = {
          "instances of unrelated classes) and family W (the wire form of a symbolic valid value with one symbolic corruption); the "
          "oracle is an independent structural conformance checker (vlib/shapes.py); leaves are narrow because the routines "
          "stringify / realise them.", "4/C03", "CrossHair symbolic execution of the real unmarshallers on arbitrary inputs, z3 path exhaustion, native replay"),
+ "C06": ("E1 value-symbolic: marshal(v, t=T) on symbolic valid v; the output is walked by an independent checker (exact builtin classes, "
+         "primitive keys), compared with a second call, checked for container identity against v, v against a rebuilt snapshot; "
+         "Literal non-members (symbolic int/str/bool) must raise ValueError; subclass instances from pick-lists.", "4/C06",
+         "CrossHair symbolic execution of the real marshallers, z3 path exhaustion, native replay"),
+ "C13": ("E1 value-symbolic: unmarshal(T, v) == v with identical classes for symbolic valid v (unbounded ints, symbolic strs incl. the "
+         "solver-found 2-character first field), an adversarial-string variant, and idempotence unmarshal(T, unmarshal(T, x)) on arbitrary "
+         "x in J and on wire forms.", "4/C13", "CrossHair symbolic execution of the real unmarshallers, z3 path exhaustion, native replay"),
 }
 NA = {
  "C17": "flat catalogue of CPython type objects compared with CPython's own issubclass/typing internals: neither side can be encoded for a solver and there is no value, shape, state or history to make symbolic (DESIGN.md section 7)",
